@@ -74,6 +74,7 @@ def _separator(fn):
 COMPOUND = "autofit/mapper/prior/arithmetic/compound.py"
 MODEL_OBJECT = "autofit/mapper/model_object.py"
 LOG_GAUSSIAN = "autofit/mapper/prior/log_gaussian.py"
+DRAWER = "autofit/non_linear/search/mle/drawer/search.py"
 
 
 def _class(tree, name):
@@ -109,7 +110,20 @@ def _facts(repo):
     ltree, _ = T.parse_file(repo, LOG_GAUSSIAN)
     lg = _class(ltree, "LogGaussianPrior")
     has_dict = any(isinstance(n, ast.FunctionDef) and n.name == "dict" for n in lg.body)
-    return compound, modified, bool(restores), has_dict
+    # Drawer.__init__ hands `number_of_cores=...` AND **kwargs to the base class: a search.json (which lists
+    # number_of_cores) can be read back only if the key is removed from kwargs first
+    dtree, _ = T.parse_file(repo, DRAWER)
+    init = T.find_function(dtree, "Drawer.__init__")
+    supers = [n for n in ast.walk(init) if isinstance(n, ast.Call) and isinstance(n.func, ast.Attribute)
+              and n.func.attr == "__init__" and isinstance(n.func.value, ast.Call) and T._dotted(n.func.value.func) == "super"]
+    if len(supers) != 1:
+        raise T.TranslationError("Drawer.__init__ does not call super().__init__ exactly once")
+    passes = any(k.arg == "number_of_cores" for k in supers[0].keywords)
+    star = any(k.arg is None for k in supers[0].keywords)
+    pops = any(isinstance(n, ast.Call) and T._dotted(n.func) == "kwargs.pop" and n.args
+               and isinstance(n.args[0], ast.Constant) and n.args[0].value == "number_of_cores" for n in ast.walk(init))
+    drawer_ok = not (passes and star) or pops
+    return compound, modified, bool(restores), has_dict, drawer_ok
 
 
 def _coq_opt_names(names):
@@ -134,7 +148,7 @@ def regenerate(repo=None):
         raise T.TranslationError("rounding is not wrapped in `try: ... except OverflowError: pass`")
     prefix, names, kf_line = _key_filter(fn)
     sep, sep_line = _separator(T.find_function(tree, "Identifier.__str__"))
-    compound, modified, restores, has_dict = _facts(repo)
+    compound, modified, restores, has_dict, drawer_ok = _facts(repo)
     h = res.hex()
     lines = [
         "(* GENERATED by harness/vcheck/c07.py from %s -- do not edit. *)" % IDENT,
@@ -166,6 +180,8 @@ def regenerate(repo=None):
         "Definition reload_restores_item_number : bool := %s." % ("true" if restores else "false"),
         "(* LogGaussianPrior defines its own dict() *)",
         "Definition log_gaussian_dict : bool := %s." % ("true" if has_dict else "false"),
+        "(* %s: Drawer called with the arguments of its own search.json does not raise *)" % DRAWER,
+        "Definition drawer_json_readable : bool := %s." % ("true" if drawer_ok else "false"),
         "",
     ]
     text = "\n".join(lines)
@@ -181,7 +197,8 @@ def regenerate(repo=None):
         "key_filter": {"source": "startswith(%r) or in %r" % (prefix, tuple(names)), "line": kf_line},
         "join_sep": {"source": repr(sep), "line": sep_line},
         "facts": {"source": "CompoundPrior.__identifier_fields__=%r ModifiedPrior.__identifier_fields__=%r from_dict restores "
-                            "item_number=%r LogGaussianPrior.dict=%r" % (compound, modified, restores, has_dict), "line": 0},
+                            "item_number=%r LogGaussianPrior.dict=%r Drawer search.json readable=%r" % (compound, modified, restores, has_dict, drawer_ok),
+                  "line": 0},
     }
 
 
